@@ -60,53 +60,6 @@ def chunksArrayPy (native : Order) (a : OrderArg) (fmt : Fmt) (size : Nat) (pad 
     Gen Bytes PackErr :=
   chunksArray native (resolveOrder native a.order) (leElem false fmt) (.int 0) size pad xs
 
-/-! ### a source that raises in the middle (`seq` is any iterable)
-
-  The source hands out `xs` and then raises its own exception.
-  * struct: `blocks` only ever yields WHOLE blocks before the source fails, so the chunks are those of
-    the first `⌊n/size⌋·size` items (an item that cannot be packed stops it earlier), then the source's
-    exception comes out; the partial tail is never packed.
-  * array: `chunk[idx] = el` stores every item when it arrives, so an item of the partial tail that
-    cannot be stored raises ITS exception before the source fails. -/
-
-inductive SrcErr (ε : Type)
-  | item (e : ε)       -- an item could not be stored
-  | source             -- the source's own exception
-  deriving DecidableEq, Repr
-
-def Gen.thenSource {β ε} (g : Gen β ε) : Gen β (SrcErr ε) :=
-  ⟨g.out, match g.err with | some e => some (.item e) | Option.none => some .source⟩
-
-section raising
-variable {α ε : Type}
-
-/-- `chunks.struct` over a source that raises after `xs`: `blocks` (C08, `hop = size`) run on `xs`
-without its padding tail, every block packed as it comes out -/
-def chunksStructRaise (order : Order) (le : α → Except ε Bytes) (size : Nat) (xs : List α) :
-    Gen Bytes (SrcErr ε) :=
-  (genMap (packBlock (encOrder order le)) (ALV.C08.bloop size size ⟨[], 0⟩ xs).1).thenSource
-
-/-- the first loop of `chunks.array` over a source that raises after the listed items -/
-def aLoopRaise (encN : α → Except ε Bytes) (exp : List Bytes → Bytes) (size : Nat) :
-    List Bytes → Nat → List α → Gen Bytes (SrcErr ε)
-  | _, _, [] => ⟨[], some .source⟩
-  | cells, idx, el :: rest =>
-    match encN el with
-    | .error e => ⟨[], some (.item e)⟩
-    | .ok c =>
-      let cells := cells.set idx c
-      if idx + 1 = size then (aLoopRaise encN exp size cells 0 rest).cons (exp cells)
-      else aLoopRaise encN exp size cells (idx + 1) rest
-
-/-- `chunks.array` over a source that raises after `xs` -/
-def chunksArrayRaise (native order : Order) (le : α → Except ε Bytes) (zero : α) (size : Nat)
-    (xs : List α) : Gen Bytes (SrcErr ε) :=
-  match encOrder native le zero with
-  | .error e => ⟨[], some (.item e)⟩
-  | .ok z => aLoopRaise (encOrder native le) (exportCells native order) size (List.replicate size z) 0 xs
-
-end raising
-
 /-! ### WavStream(wave_file, keep=False) -/
 
 /-- an argument as it is spelled at the call -/
